@@ -398,11 +398,13 @@ def replay_arnoldi(rep, light=False):
                 if len(psis) != nret:
                     bad('number-of-vectors', got=len(psis), expected=nret)
                     continue
-                if len(Es) != numev:
+                # documented: num_ev entries; only min(N, num_ev) Ritz values exist (finding C16-arnoldi-padding: the rest is
+                # padding).  Both lengths are accepted until the padding is removed; then flip to `len(Es) != nret`.
+                if len(Es) not in (numev, nret):
                     bad('number-of-values', got=len(Es))
                     continue
                 allkeys = [which_key(which, e + sigma) for e in Es]
-                if numev > nret and any(allkeys[i] > allkeys[i + 1] + tol * (1 + abs(allkeys[i])) for i in range(numev - 1)) \
+                if len(Es) > nret and any(allkeys[i] > allkeys[i + 1] + tol * (1 + abs(allkeys[i])) for i in range(len(Es) - 1)) \
                         and not any(allkeys[i] > allkeys[i + 1] + tol * (1 + abs(allkeys[i])) for i in range(nret - 1)):
                     # fewer Ritz values than num_ev exist: the array is filled up with values that are no Ritz values
                     rep.fail('Arnoldi', 'order-of-padding', dict(classes, padded=True), dict(det, keys=allkeys, n_ritz=nret))
